@@ -704,6 +704,10 @@ def write_inputs(spec, directory):
         else:
             text = "".join(render_itp_block(spec["blocks"][i]) + "\n" for i in fil["blocks"])
             path = directory / f"f{num}.itp"
+        if spec.get("rng", 1) % 4 == 0:
+            # one case in four: every input file has the same base name, each in a directory of its own
+            path = directory / f"d{num}" / ("defs" + path.suffix)
+            path.parent.mkdir(exist_ok=True)
         path.write_text(text)
         inpaths.append(path)
     if spec.get("explicit"):
